@@ -21,6 +21,8 @@ Definition code_fixed_F10 := true.
 Definition code_fixed_F11 := true.
 (* the variant of treenode.go SendTo (configuration marked as sent before / after the send) *)
 Definition code_fixed_N1 := false.
+(* overlay.go: an unanswered tree request is retried (C09-N2) *)
+Definition code_fixed_N2 := false.
 
 (* ---- operations of the harness ------------------------------------------- *)
 
@@ -392,7 +394,8 @@ Inductive case :=
 | CEntry (ep : entry) (self : nat) (dests : list nat) (up : list nat)
          (obs_errs : nat) (obs_deliv : list nat)
 | CConfig (first_failed : bool) (obs_victim_msg obs_victim_cfg obs_control_cfg : bool)
-| CCluster (canaries canaries_done : nat) (sends_returned survivors_alive handlers_told after_restart_ok : bool).
+| CCluster (canaries canaries_done : nat) (sends_returned survivors_alive handlers_told after_restart_ok : bool)
+| CTreeReq (request_unanswered : bool) (canaries canaries_done : nat) (sends_returned survivors_alive after_restart_ok : bool).
 
 (* ---- model side of the entry points ---------------------------------------- *)
 
@@ -444,6 +447,8 @@ Definition agree (c : case) : bool :=
       Bool.eqb vcfg (carries_config code_fixed_N1 (if first_failed then [RErr] else []))
   | CCluster canaries done returned alive told after =>
       (done =? canaries) && returned && alive && told && after
+  | CTreeReq unanswered canaries done returned alive after =>
+      (done =? canaries) && returned && alive && Bool.eqb after (asks_again code_fixed_N2 unanswered)
   end.
 
 Definition mismatches (l : list case) : list nat := mism_idx agree l.
@@ -635,6 +640,8 @@ Definition check (c : case) : list nat :=
       clause 4 vmsg
   | CCluster canaries done returned alive told after =>
       clause 5 ((done =? canaries) && returned && alive) ++ clause 3 told ++ clause 4 after
+  | CTreeReq _ canaries done returned alive after =>
+      clause 5 ((done =? canaries) && returned && alive) ++ clause 4 after
   end.
 
 Definition violations (l : list case) : list (nat * nat) := viols check l.
